@@ -61,6 +61,13 @@ def class_name_collision(case):
     return any(gen.class_name_collision(sorted(set(all_keys(s)))) for s in [case_samples(case)])
 
 
+def nfkc_unstable_key(case):
+    o = case.get("opts", {}) if isinstance(case, dict) else {}
+    if o.get("unicode", True):
+        return False
+    return any(gen.nfkc_unstable(k) for s in case_samples(case) for k in all_keys(s))
+
+
 def attrs_field_converter(case):
     o = case.get("opts", {}) if isinstance(case, dict) else {}
     return o.get("fw") == "attrs" and not o.get("pic")
@@ -118,6 +125,7 @@ PREDICATES = dict(
     attrs_field_converter=attrs_field_converter,
     pydantic_optional_container_of_none=pydantic_optional_container_of_none,
     legacy_list_order=legacy_list_order,
+    nfkc_unstable_key=nfkc_unstable_key,
     class_name_collision=class_name_collision,
     pydantic_stricter_datetime=pydantic_stricter_datetime,
 )
